@@ -88,6 +88,21 @@ func c05Key(c *Ctx, sx *symx.Ctx) {
 	if !r.Anchor("O-1", "database.(*Database).SearchUniversal", R != nil) {
 		return
 	}
+	// the query part of the key: requests may share an entry only when the
+	// engine answers them alike. Case folding is justified (C20 O-1 shows that
+	// no case-sensitive operation sees the query's original case); nothing else
+	// is: the typo fallback hands the query to the matcher as its pattern,
+	// blanks included, so queries that differ in surrounding blanks can be
+	// answered differently.
+	if kinds, pos, found := cacheKeyQuerySteps(c); r.Anchor("O-1", "cache.(*SearchCache).generateCacheKey: query normalisation", found || len(kinds) == 0) {
+		var extra []string
+		for _, k := range kinds {
+			if k != "lower" {
+				extra = append(extra, k)
+			}
+		}
+		r.Check(len(extra) == 0, "O-1", "cache.(*SearchCache).generateCacheKey#query-normalisation-is-neutral", pos, "the key identifies queries only up to letter case, which the engine ignores", "the key also applies "+strings.Join(extra, ", ")+" to the query: requests whose queries differ only in surrounding blanks share an entry although the engine can answer them differently (the typo fallback matches the raw query, blanks included) — a cached search then returns the other request's answer")
+	}
 	var names []string
 	for f := range R {
 		names = append(names, f)
